@@ -394,6 +394,39 @@ fn run_boundary_keys(cx: &mut CaseCx, case: &Value) {
   cx.outcome("boundary keys revealed");
 }
 
+
+/// ONE aggregation-server object reused for MANY calls: 60 consecutive `retrieve_outputs` calls over batches
+/// that alternate between a full batch, its halves, an empty batch and a batch of another composition - every
+/// call's output is what a fresh server gives for that batch (no state from one call to the next, no even /
+/// odd or first-call difference)
+fn run_server_reuse(cx: &mut CaseCx, case: &Value) {
+  let t = case["t"].as_u64().unwrap() as u32;
+  let reps = match make_reports(cx, t, &[t as usize, t as usize + 1, t as usize - 1, 2 * t as usize, 1], true) {
+    Some(r) => r,
+    None => return,
+  };
+  let server = AggregationServer::new(t, "t");
+  let pool = rayon::ThreadPoolBuilder::new().num_threads(3).build().expect("pool");
+  let n = reps.len();
+  let batches: Vec<(&str, Vec<usize>)> = vec![("the full batch", (0..n).collect()), ("its first half", (0..n / 2).collect()), ("the empty batch", vec![]), ("its second half", (n / 2..n).collect()), ("every other report", (0..n).step_by(2).collect()), ("the full batch reversed", (0..n).rev().collect())];
+  cx.nontrivial(t as u64);
+  for call in 0..60usize {
+    let (bname, idx) = &batches[(call * 7 + call / 6) % batches.len()];
+    let sel: Vec<&Rep> = idx.iter().map(|&i| &reps[i]).collect();
+    let want = expected(&sel, t);
+    let msgs: Vec<Message> = sel.iter().map(|r| r.msg.clone()).collect();
+    if !judge(cx, observe(&server, &pool, &msgs), &want, &|| json!({"t": t, "call_number": call + 1, "batch": bname})) {
+      if let Some(v) = cx.viols.last_mut() {
+        v.key = format!("{}/server-reuse", v.key);
+        v.what = format!("call number {} on one aggregation-server object ({}): {}", call + 1, bname, v.what);
+      }
+      return;
+    }
+    cx.count("calls_on_one_server", 1);
+  }
+  cx.outcome("server reuse");
+}
+
 /// magnitudes: associated data beyond 64 KiB, thresholds in the hundreds
 fn run_magnitudes(cx: &mut CaseCx, case: &Value) {
   let t = case["t"].as_u64().unwrap() as u32;
@@ -642,6 +675,13 @@ pub fn spec() -> PropSpec {
         },
         run: run_boundary_keys,
         min_counts: &[("boundary_keys_found", 35), ("revealed_groups", 20)],
+      },
+      Check {
+        name: "server-reuse",
+        rule: "ONE AggregationServer object through 60 consecutive retrieve_outputs calls (t in {2,3,5}) over batches in rotation - the full batch (groups of t, t+1, t-1, 2t, 1 reports plus duplicates), its halves, the empty batch, every other report, the reverse: every call returns what the reference model gives for that batch",
+        gen: |_| [2u64, 3, 5].iter().map(|t| json!({"t": t})).collect(),
+        run: run_server_reuse,
+        min_counts: &[("calls_on_one_server", 180)],
       },
       Check {
         name: "magnitudes",
